@@ -17,8 +17,8 @@ check("C01",
       "decoder is then run on enumerated + TLC-enumerated (every structure of compression pointers among K slots, every RDLENGTH claim x RDATA "
       "string per record type) + random + mutated + grammar-built datagrams in watchdogged child processes and every "
       "outcome is validated by TLC against the RFC 1035 oracle (Wire!ParseMsg) and against the transcription (drift).",
-      "Trusts TLC, the facade (no logic), and the harness's watchdog; time/memory proportionality is observed with generous "
-      "wall-clock constants, not proved; exploration of 0..9000-byte inputs is sampled, small strings are exhaustive.",
+      "Trusts TLC, the facade (no logic), and the harness's watchdog; time/memory proportionality is observed (wall clock with a generous "
+      "constant; peak heap use of every decode call counted by the harness's allocator and bounded by 64 bytes per datagram byte + 8 KB), not proved; exploration of 0..9000-byte inputs is sampled, small strings are exhaustive.",
       "TLA+ mechanism model checked by TLC + trace validation of real decode calls against a TLA+ wire-format oracle",
       "DESIGN.md section 7 C01")
 
@@ -84,7 +84,7 @@ check("C03", "Every ServiceResolved of every iteration is judged by the TLC moni
       "interfaces, TXT from a live TXT record, a live PTR of the browsed type, never from expired / withdrawn / flush-displaced records; "
       "Heard's incremental rules are model-checked (LiveOnlyWithinTtl, LatestGoverns, GoodbyeWithdraws, FlushRule).", Q_NOTE, Q_TECH, "DESIGN.md section 7 C03")
 check("C04", "Same monitor: whenever the daemon parks, every instance whose PTR, SRV, TXT and an address arrived (in any split / order / with duplicates and "
-      "foreign records) in packets that were for it and are live must have been reported ServiceFound and ServiceResolved; unresolved instances get "
+      "foreign records) in packets that were for it and are live must have been reported ServiceFound and ServiceResolved (and a TXT that arrives last is carried by a ServiceResolved of that iteration: C04.resolve-txt); unresolved instances get "
       "at most three follow-up queries 500 ms apart, and it must ask: first for the SRV / TXT of a found instance, then for the addresses of its host, "
       "within a second (C04.ask); the daemon's own questions must carry the labels of the received names.", Q_NOTE, Q_TECH, "DESIGN.md section 7 C04")
 check("C05", "Same monitor: whenever the daemon parks, every reported instance still has a live PTR (and every resolved one a live SRV and address) - "
